@@ -33,6 +33,7 @@ type Addr struct {
 	Idx  Term // absolute element index (AElem)
 	Elem string
 	Typ  types.Type // pointee type
+	Origin *ssa.Alloc // ALocal: the allocation it belongs to
 }
 
 type Value struct {
@@ -69,6 +70,8 @@ type Exec struct {
 	Locals   map[string]string // local state components: name -> sort
 	refEpoch map[string]string // fresh ref term -> epoch id at creation
 	neid     int
+	escaped  map[*ssa.Alloc]bool // locals whose address was needed as a value (re-run with them on the heap)
+	forceHeap map[*ssa.Alloc]bool
 	heapInv  bool // assume closure of the entry heap under allocation (needed by epoch-stable spec functions)
 	nlocal   int
 	Active   map[string]*Contract // schema contracts usable at recursive call sites
@@ -407,6 +410,11 @@ func (x *Exec) term(v Value, typ types.Type, site string) Term {
 		if v.A.Kind == ACell {
 			return v.A.Ref
 		}
+		if v.A.Kind == ALocal && v.A.Origin != nil {
+			// optimistic local: its address escapes; the VC is rebuilt with this variable on the heap
+			x.escaped[v.A.Origin] = true
+			return x.C.Fresh("escaping", want)
+		}
 		x.havoc(site + ": interior pointer used as value")
 		return x.C.Fresh("iptr", want)
 	case VFunc:
@@ -490,6 +498,10 @@ func (x *Exec) assumeTypeInv(st State, guard Term, t Term, typ types.Type) {
 		case *types.Signature:
 			x.C.Assume(guard, T(SBool, fmt.Sprintf("(<= 0 %s)", t.S)))
 		}
+	case SStr:
+		if strings.ContainsAny(t.S, "( ") || !strings.HasPrefix(t.S, "\"") {
+			x.C.Assume(guard, T(SBool, fmt.Sprintf("(<= (str.len %s) 72057594037927936)", t.S)))
+		}
 	case SSlice:
 		x.C.Assume(guard, T(SBool, app("okslice", t.S, al.S)))
 	case SVal:
@@ -531,6 +543,14 @@ func (x *Exec) mergeValues(c Term, a, b Value) Value {
 	}
 	if a.Kind == VFunc && b.Kind == VFunc && a.Fn == b.Fn && a.Ext == b.Ext && len(a.Binds) == 0 && len(b.Binds) == 0 {
 		return a
+	}
+	if a.Kind == VAddr && b.Kind == VAddr && a.A.Kind == ALocal && b.A.Kind == ALocal && a.A.Comp != b.A.Comp {
+		if a.A.Origin != nil {
+			x.escaped[a.A.Origin] = true
+		}
+		if b.A.Origin != nil {
+			x.escaped[b.A.Origin] = true
+		}
 	}
 	if a.Kind == VAddr && b.Kind == VAddr && a.A.Kind == b.A.Kind && a.A.Comp == b.A.Comp {
 		na := *a.A
